@@ -184,9 +184,14 @@ pub struct CaseOut {
     pub violations: Vec<(String, String)>,
     /// inconclusive reasons
     pub inconclusive: Vec<String>,
+    /// measured quantities, summed over cases
+    pub sums: Vec<(String, u64)>,
 }
 
 impl CaseOut {
+    pub fn add(&mut self, key: impl Into<String>, n: u64) {
+        self.sums.push((key.into(), n));
+    }
     pub fn tag(&mut self, t: impl Into<String>) {
         self.tags.push(t.into());
     }
@@ -212,6 +217,7 @@ pub struct Agg {
     pub cases: u64,
     pub distinct: HashSet<u64>,
     pub tags: BTreeMap<String, u64>,
+    pub sums: BTreeMap<String, u64>,
     pub samples: Vec<String>,
     pub violations: Vec<Violation>,
     pub violation_count: u64,
@@ -228,6 +234,9 @@ impl Agg {
         }
         for t in out.tags {
             *self.tags.entry(t).or_insert(0) += 1;
+        }
+        for (k, n) in out.sums {
+            *self.sums.entry(k).or_insert(0) += n;
         }
         if let Some(s) = out.sample {
             // keep first 3 samples per stage
@@ -267,6 +276,11 @@ impl Agg {
             .iter()
             .map(|(k, v)| format!("{}:{}", jstr(k), v))
             .collect();
+        let sums: Vec<String> = self
+            .sums
+            .iter()
+            .map(|(k, v)| format!("{}:{}", jstr(k), v))
+            .collect();
         let viol: Vec<String> = self
             .violations
             .iter()
@@ -286,6 +300,7 @@ impl Agg {
             ("evaluations", self.evaluations.to_string()),
             ("distinct_nontrivial", self.distinct.len().to_string()),
             ("tags", format!("{{{}}}", tags.join(","))),
+            ("obs_measured_sums", format!("{{{}}}", sums.join(","))),
             ("samples", jlist(&self.samples)),
             ("violation_count", self.violation_count.to_string()),
             ("violations", jlist(&viol)),
